@@ -280,8 +280,11 @@ pub fn write_float_nonscientific<const FORMAT: u128>(
     let decimal_point = options.decimal_point();
 
     // Round and truncate the number of significant digits.
+    // Leading zeros do not count as digits: skipping them would otherwise
+    // drop every significant digit of a small float with a large break.
     let mut start = integer_cursor;
-    let end = fraction_cursor.min(start + MAX_DIGIT_LENGTH + 1);
+    let zeros = ltrim_char_count(&buffer[start..fraction_cursor], b'0');
+    let end = fraction_cursor.min(start + zeros + MAX_DIGIT_LENGTH + 1);
     let (mut digit_count, carried) =
         truncate_and_round(buffer, start, end, format.radix(), options);
 
